@@ -223,6 +223,21 @@ def execute(case: dict) -> dict:
             tt = t.T
             o['TT_ok'], o['TT_err'] = _close(terms.dense_of(tt), want, tol, rel=True)
             o['TT_structs'] = (tt.in_structure() == op.in_structure()) and (tt.out_structure() == op.out_structure())
+            if type(op).__name__ == 'DenseBlockDiagonalOperator' and not jax.tree.leaves(op.blocks)[0].dtype.kind == 'c':
+                # the same einsum operator with complex blocks: the transpose is the plain transpose (no conjugation)
+                cdt = jnp.complex128 if x64 else jnp.complex64
+                blocks_c = jax.tree.map(lambda b: b.astype(cdt) * (1 + 2j), op.blocks)
+                struct_c = jax.tree.map(lambda l: jax.ShapeDtypeStruct(l.shape, cdt), op.in_structure())
+                opc = type(op)(blocks_c, struct_c, op.subscripts)
+
+                def cdense(o):
+                    cols = []
+                    for xb in terms.basis_inputs(o.in_structure()):
+                        cols.append(np.concatenate([np.asarray(l).ravel() for l in jax.tree.leaves(o.mv(xb))]))
+                    return np.stack(cols, axis=1)
+
+                Mc, Mct = cdense(opc), cdense(opc.T)
+                o['complex_T_ok'] = bool(Mct.shape == Mc.T.shape and np.allclose(Mct, Mc.T, rtol=1e-5, atol=1e-5))
             x = _rand_int_tree(op.in_structure(), rng)
             y = _rand_int_tree(op.out_structure(), rng)
             lhs = float(ftree.dot(op(x), y))
@@ -321,7 +336,8 @@ def execute(case: dict) -> dict:
 
 CLAUSES = {
     'C03': [('T_ok', 'transpose_matrix'), ('T_structs', 'transpose_structures'), ('TT_ok', 'double_transpose'),
-            ('TT_structs', 'double_transpose_structures'), ('adjoint_ok', 'inner_product')],
+            ('TT_structs', 'double_transpose_structures'), ('adjoint_ok', 'inner_product'),
+            ('complex_T_ok', 'transpose_of_complex_blocks')],
     'C04': [('as_matrix_ok', 'as_matrix'), ('as_matrix_vs_basis', 'as_matrix_vs_basis'), ('generic_ok', 'generic_as_matrix'),
             ('linear_ok', 'linearity'), ('zero_ok', 'zero_maps_to_zero'), ('dense_ok', 'basis_matrix')],
     'C05': [('in_decl', 'declared_in_structure'), ('out_decl', 'declared_out_structure'),
@@ -343,6 +359,58 @@ CLAUSES = {
 GROUPS = {'C03': 'T', 'C04': 'M', 'C05': 'S', 'C06': 'I', 'C08': 'GT', 'C10': 'MTIS'}
 EXC_KEYS = {'C03': ['T_exc'], 'C04': ['M_exc', 'dense_exc'], 'C05': ['S_exc'], 'C06': ['I_exc_group'],
             'C08': ['G_exc'], 'C10': ['M_exc', 'T_exc', 'I_exc', 'S_exc', 'dense_exc']}
+
+
+TAGS_CFG = 'INIT Init\nNEXT Next\nINVARIANT Emit\nCHECK_DEADLOCK FALSE\n'
+
+
+def execute_custom_tags(case: dict) -> dict:
+    """C08 on user-defined operators: a class decorated with `case['dec']` carrying the witness matrix of MC_Tags;
+    every tag the library claims for op / op.T / op.T.T / op.I / op.I.I / op.T.I must hold for the matrix the object denotes."""
+    import equinox
+    import jax
+    import jax.numpy as jnp
+    import lineax as lx
+    import numpy as np
+    from furax import operators as fo
+
+    W = np.array(case['witness']['e'], dtype=np.float32) / case['witness']['d']
+
+    class _Mat(fo.AbstractLinearOperator):
+        matrix: jax.Array
+
+        def mv(self, x):
+            return self.matrix @ x
+
+        def in_structure(self):
+            return jax.ShapeDtypeStruct((self.matrix.shape[1],), jnp.float32)
+
+    cls = getattr(fo, case['dec'])(type('Decorated_' + case['dec'], (_Mat,), {}))
+    op = cls(jnp.asarray(W))
+    form = case['form']
+    out = {'id': case['id'], 'claims': {}, 'bad': []}
+    try:
+        obj = {'op': lambda: op, 'T': lambda: op.T, 'TT': lambda: op.T.T, 'I': lambda: op.I, 'II': lambda: op.I.I,
+               'TI': lambda: op.T.I}[form]()
+    except Exception as exc:
+        out['construct_exc'] = f'{type(exc).__name__}: {str(exc)[:120]}'      # a refusal is always allowed
+        return out
+    out['class'] = type(obj).__name__
+    queries = {'sym': lx.is_symmetric, 'diag': lx.is_diagonal, 'lower': lx.is_lower_triangular,
+               'upper': lx.is_upper_triangular, 'tridiag': lx.is_tridiagonal, 'psd': lx.is_positive_semidefinite,
+               'nsd': lx.is_negative_semidefinite}
+    for name, fn in queries.items():
+        try:
+            claim = bool(fn(obj))
+        except Exception as exc:
+            claim = False
+            out.setdefault('query_exc', {})[name] = type(exc).__name__
+        out['claims'][name] = claim
+        if claim and not case['holds'][name]:
+            out['bad'].append(name)
+    if out['claims'].get('sym') and form in ('op', 'TT', 'II') and obj.T is not obj:
+        out['bad'].append('symmetric_T_not_self')
+    return out
 
 
 def judge(prop: str, cases: list[dict], results: list[dict], verd: fx.Verdicts) -> int:
@@ -450,9 +518,31 @@ def run(prop: str, tier: str, seed: int) -> int:
         accepted += judge(prop, sub, res, verd)
         nrun += len(res)
         results += res[:2]
+    extra_states = 0
+    custom = {}
+    if prop == 'C08':
+        tg = fx.run_tlc('MC_Tags', TAGS_CFG, workers=1, tag='tags')
+        if tg.violated:
+            raise fx.MachineryError(f'MC_Tags violates {tg.violated}')
+        extra_states = tg.distinct
+        tcases = tg.cases
+        for c in tcases:
+            c['id'] = fx.case_id({'d': c['dec'], 'f': c['form']})
+        tres = fx.replay('termcheck', 'execute_custom_tags', tcases, procs=4)
+        by = {c['id']: c for c in tcases}
+        for r in tres:
+            c = by[r['id']]
+            if r['bad']:
+                verd.report(f"untruthful_tag_on_decorated_operator:{c['dec']}:{c['form']}:{','.join(r['bad'])}",
+                            'untruthful_tag', c, r)
+            else:
+                accepted += 1
+        nrun += len(tres)
+        custom = {'decorated_user_classes': len(tcases),
+                  'claims': {f"{by[r['id']]['dec']}.{by[r['id']]['form']}": [k for k, v in r['claims'].items() if v] for r in tres}}
     rc = verd.finish()
     fx.write_evidence(prop, tier, seed, {
-        'states': gen.distinct, 'transitions': gen.generated,
+        'states': gen.distinct + extra_states, 'transitions': gen.generated + extra_states,
         'traces_validated_against_impl': accepted,
         'evaluations': nrun,
         'distinct_nontrivial': fx.nontrivial_count(picked, lambda c: not c.get('refused') and c['term']['k'] != 'id'),
@@ -463,7 +553,7 @@ def run(prop: str, tier: str, seed: int) -> int:
                 'identity operator; distinct by canonical JSON',
         'exhaustive': len(picked) == len(sel),
         'emitted_subjects': len(cases), 'in_scope_for_property': len(sel), 'replayed': len(picked),
-        'modes': [f"{'x64' if m[0] else 'x32'}/{m[1]}" for m in modes], 'observation_groups': groups,
+        'modes': [f"{'x64' if m[0] else 'x32'}/{m[1]}" for m in modes], 'observation_groups': groups, **custom,
         'samples': [{'names': picked[0]['names'], 'obs': results[0]['obs'] if results else None},
                     {'names': picked[-1]['names']}],
     }, [
